@@ -97,3 +97,24 @@ Section Caps.
      (mkS T' (s_open s) (s_clock s), RInsert r)).
   Proof. intros W. cbn [store_step]. now rewrite W. Qed.
 End Caps.
+
+(** settings survive reopening the store, with or without rebuilding the derived tables (C15, C17) *)
+Lemma open_store_settings T :
+  t_peers (open_store T) = t_peers T /\ t_policy (open_store T) = t_policy T /\ t_namespaces (open_store T) = t_namespaces T.
+Proof.
+  unfold open_store, migrate_bykey, migrate_latest.
+  destruct (t_latest T); [destruct (t_records T)|]; cbn [t_bykey set_latest];
+    destruct (t_bykey T); repeat split; reflexivity.
+Qed.
+Theorem reopen_keeps_settings ks EH MF CAP s o : (o = SReopen \/ exists l b, o = SWipeReopen l b) ->
+  let T' := s_tables (fst (store_step ks EH MF CAP s o)) in
+  forall ns, get_sync_peers T' ns = get_sync_peers (s_tables s) ns /\
+             get_policy T' ns = get_policy (s_tables s) ns /\
+             get_cap T' ns = get_cap (s_tables s) ns.
+Proof.
+  intros [->|(l & b & ->)] T' ns; unfold T'; cbn [store_step fst s_tables]; cbv zeta.
+  - destruct (open_store_settings (s_tables s)) as (P & Q & R).
+    unfold get_sync_peers, peers_of, get_policy, get_cap. now rewrite P, Q, R.
+  - destruct (open_store_settings (if b then set_bykey (if l then set_latest (s_tables s) [] else s_tables s) [] else (if l then set_latest (s_tables s) [] else s_tables s))) as (P & Q & R).
+    unfold get_sync_peers, peers_of, get_policy, get_cap. rewrite P, Q, R. destruct l, b; repeat split; reflexivity.
+Qed.
